@@ -15,6 +15,9 @@
          that existed before the destination was created)
      U5  MkdirAll of the root: ok or err, unchanged
      U6  a failing copy may already have created the destination's parents
+     U7  (trace specs only; here the root always exists) a disk filespace that removed
+         its own root directory, or a child view whose base is gone and whose root is
+         addressed: clean refusal -- see Trace_MemFS.tla
    Results are uniformly typed (TLC cannot compare a string with a set): a set
    of string tuples -- OK, ERR, B(b), Dat(d), Lst(listing), St(name,isDir). *)
 EXTENDS Naturals, Sequences, FiniteSets
